@@ -14,6 +14,7 @@
 import Y0.Lemmas.Ctf
 import Y0.Lemmas.CtfScm
 import Y0.Lemmas.CtfComponents
+import Y0.Lemmas.CtfSimplify
 
 namespace Y0.Ctf
 open Relation Y0.MG
@@ -506,6 +507,171 @@ theorem ancestralSetAfter_eq (g : MG Name) (cond : List Var) (root : Var) (A : L
         · rintro ⟨m, hmm, ⟨A₁, hA₁, hmA⟩, rfl⟩
           cases hA₁
           exact ⟨m, ⟨hmm, hmA⟩, rfl⟩
+
+/-! ## 5. SIMPLIFY (Algorithm 1): probability preserved, `None` only for probability 0
+
+The full statement quantifies over all events.  It is FALSE for the model (hence for the code) on events that contain a
+self-intervened variable `Y_y`: `simplify [(Y_y, y)] = [(Y, y)]` although `P(Y_y = y) = 1`, and
+`simplify [(Y_y, y), (Y, y')] = None` although the event has probability `P(Y = y')` (open findings
+`simplify-reflexive:prob` / `simplify-reflexive:none`; the pinned test-suite asserts this behaviour).  What is proved
+is the statement for every event without a self-intervened variable whose values are values of the variable they are
+bound to, for every compatible functional SCM and every reading of the value symbols.
+
+-- OPEN: simplify_prob : simplify g e = .ok (some e') → Compatible M g → ν.Distinct →
+--         probEventOpt M ν e = probEventOpt M ν e'                     (all events; false today, see above)
+-- OPEN: simplify_none_zero : simplify g e = .ok none → Compatible M g → ν.Distinct → probEventOpt M ν e = 0
+-/
+
+/-- `minimize_event` works item by item -/
+theorem minimizeEvent_mem (g : MG Name) (e me : Event) (h : minimizeEvent g e = .ok me) (k : Var) (x : Val) :
+    (k, x) ∈ me ↔ ∃ v, (v, x) ∈ e ∧ minimize g v = .ok k := by
+  unfold minimizeEvent at h
+  rw [mapM_ok_mem _ _ _ h]
+  constructor
+  · rintro ⟨⟨v, y⟩, hp, hf⟩
+    simp only [bind, Except.bind] at hf
+    cases hm : minimize g v with
+    | error err => rw [hm] at hf; cases hf
+    | ok k' =>
+      rw [hm] at hf
+      simp only [pure, Except.pure, Except.ok.injEq, Prod.mk.injEq] at hf
+      obtain ⟨rfl, rfl⟩ := hf
+      exact ⟨v, hp, hm⟩
+  · rintro ⟨v, hp, hm⟩
+    exact ⟨(v, x), hp, by simp [bind, Except.bind, hm, pure, Except.pure]⟩
+
+/-- pointwise content of the two SIMPLIFY theorems: at every noise point the input event fails when `None` is
+answered, and holds exactly when the returned event holds -/
+theorem simplify_pointwise (g : MG Name) (e : Event)
+    (hrefl : ∀ p ∈ e, selfIntervened p.1 = false)
+    (hval : ∀ p ∈ e, ∀ i, p.2 = some i → i.name = p.1.name)
+    (M : Fscm.Model) (hM : Fscm.Compatible M g) (ν : Fscm.BaseValues) (hν : ν.Distinct) :
+    (simplify g e = .ok none → ∀ u, ¬ EventHolds M ν u e) ∧
+    (∀ e', simplify g e = .ok (some e') → ∀ u, EventHolds M ν u e ↔ EventHolds M ν u e') := by
+  unfold simplify
+  split
+  · simp [bind, Except.bind, throw, throwThe, MonadExceptOf.throw]
+  · simp only [bind, Except.bind]
+    cases hme : minimizeEvent g e with
+    | error err => simp
+    | ok me =>
+      simp only
+      have hmem := minimizeEvent_mem g e me hme
+      -- the minimised event has no self-intervened variable either
+      have hrefl' : ∀ p ∈ me, selfIntervened p.1 = false := by
+        rintro ⟨k, x⟩ hp
+        obtain ⟨v, hv, hm⟩ := (hmem k x).1 hp
+        have hwf := minimize_wf g v k hm
+        have h0 := hrefl (v, x) hv
+        simp only [selfIntervened, List.any_eq_false, beq_iff_eq] at h0 ⊢
+        intro i hi
+        rw [hwf.1]
+        exact h0 i (hwf.2.2.1 i hi)
+      -- the minimised event holds exactly when the event holds (`minimize_same_rv`)
+      have hholds : ∀ u, EventHolds M ν u e ↔ EventHolds M ν u me := by
+        intro u
+        constructor
+        · rintro h ⟨k, x⟩ hp i hi
+          simp only at hi; subst hi
+          obtain ⟨v, hv, hm⟩ := (hmem k (some i)).1 hp
+          rw [← minimize_same_rv g v k hm M hM ν u]
+          exact h (v, some i) hv i rfl
+        · rintro h ⟨v, x⟩ hp i hi
+          simp only at hi; subst hi
+          -- `minimize` succeeds on every item because `minimize_event` did
+          have : ∃ k, minimize g v = .ok k := by
+            cases hm : minimize g v with
+            | ok k => exact ⟨k, rfl⟩
+            | error err =>
+              exfalso
+              have hlen := mapM_ok_length _ _ _ hme
+              -- an item whose minimisation fails makes `mapM` fail
+              have : ∀ (l : Event) (r : Event), (v, some i) ∈ l →
+                  l.mapM (fun p => do pure (← minimize g p.1, p.2)) ≠ .ok r := by
+                intro l
+                induction l with
+                | nil => intro r hin; cases hin
+                | cons q l ih =>
+                  intro r hin hok
+                  simp only [List.mapM_cons, bind, Except.bind] at hok
+                  rcases List.mem_cons.1 hin with rfl | hin'
+                  · simp only [hm] at hok; cases hok
+                  · cases hq : minimize g q.1 with
+                    | error e2 => rw [hq] at hok; cases hok
+                    | ok k2 =>
+                      rw [hq] at hok
+                      simp only [pure, Except.pure] at hok
+                      cases hl : l.mapM (fun p => do pure (← minimize g p.1, p.2)) with
+                      | error e3 =>
+                        simp only [bind, Except.bind, pure, Except.pure] at hl
+                        rw [hl] at hok; cases hok
+                      | ok r' => exact ih r' hin' hl
+              exact this e me hp hme
+          obtain ⟨k, hm⟩ := this
+          rw [minimize_same_rv g v k hm M hM ν u]
+          exact h (k, some i) ((hmem k (some i)).2 ⟨v, hp, hm⟩) i rfl
+      obtain ⟨hnone, hsome⟩ := simplifyCore_spec me hrefl'
+      constructor
+      · intro hc u hu
+        obtain ⟨k, i, j, hij, hi, hj⟩ := hnone hc
+        have hme' := (hholds u).1 hu
+        have e1 := hme' (k, some i) hi i rfl
+        have e2 := hme' (k, some j) hj j rfl
+        obtain ⟨v₁, hv₁, hm₁⟩ := (hmem k (some i)).1 hi
+        obtain ⟨v₂, hv₂, hm₂⟩ := (hmem k (some j)).1 hj
+        have hn₁ : i.name = k.name := by
+          rw [hval (v₁, some i) hv₁ i rfl, (minimize_wf g v₁ k hm₁).1]
+        have hn₂ : j.name = k.name := by
+          rw [hval (v₂, some j) hv₂ j rfl, (minimize_wf g v₂ k hm₂).1]
+        have heq : Fscm.ivValue ν i = Fscm.ivValue ν j := by rw [← e1, ← e2]
+        unfold Fscm.ivValue at heq
+        rw [hn₁, hn₂] at heq
+        have hstar : i.star ≠ j.star := by
+          intro hs
+          apply hij
+          cases i; cases j
+          simp only at hn₁ hn₂ hs
+          subst hs; rw [hn₁, hn₂]
+        cases hi' : i.star <;> cases hj' : j.star <;> simp only [hi', hj'] at heq hstar
+        · exact hstar rfl
+        · exact hν k.name heq
+        · exact hν k.name heq.symm
+        · exact hstar rfl
+      · intro e' hc u
+        rw [hholds u]
+        have hiff := hsome e' hc
+        constructor
+        · rintro h ⟨k, x⟩ hp i hi
+          simp only at hi; subst hi
+          exact h (k, some i) ((hiff k i).1 hp) i rfl
+        · rintro h ⟨k, x⟩ hp i hi
+          simp only at hi; subst hi
+          exact h (k, some i) ((hiff k i).2 hp) i rfl
+
+/-- **SIMPLIFY answers 'impossible' only for probability zero** (events without a self-intervened variable). -/
+theorem simplify_none_zero_partial (g : MG Name) (e : Event) (h : simplify g e = .ok none)
+    (hrefl : ∀ p ∈ e, selfIntervened p.1 = false)
+    (hval : ∀ p ∈ e, ∀ i, p.2 = some i → i.name = p.1.name)
+    (M : Fscm.Model) (hM : Fscm.Compatible M g) (ν : Fscm.BaseValues) (hν : ν.Distinct) :
+    probEventOpt M ν e = 0 :=
+  probEventOpt_zero M ν e ((simplify_pointwise g e hrefl hval M hM ν hν).1 h)
+
+/-- **SIMPLIFY preserves the probability of the event** (events without a self-intervened variable). -/
+theorem simplify_prob_partial (g : MG Name) (e e' : Event) (h : simplify g e = .ok (some e'))
+    (hrefl : ∀ p ∈ e, selfIntervened p.1 = false)
+    (hval : ∀ p ∈ e, ∀ i, p.2 = some i → i.name = p.1.name)
+    (M : Fscm.Model) (hM : Fscm.Compatible M g) (ν : Fscm.BaseValues) (hν : ν.Distinct) :
+    probEventOpt M ν e = probEventOpt M ν e' :=
+  probEventOpt_congr M ν e e' ((simplify_pointwise g e hrefl hval M hM ν hν).2 e' h)
+
+/-- the two defects that keep the full statement open, as facts about the model: the tautology `Y_y = y` is rewritten to
+`Y = y`, and `Y_y = y ∧ Y = y'` is declared impossible -/
+theorem simplify_reflexive_witness :
+    simplify (MG.fromEdges [1] [] []) [({ name := 1, ivs := [⟨1, false⟩] }, some ⟨1, false⟩)] =
+      .ok (some [({ name := 1 }, some ⟨1, false⟩)]) ∧
+    simplify (MG.fromEdges [1] [] []) [({ name := 1, ivs := [⟨1, false⟩] }, some ⟨1, false⟩),
+        ({ name := 1 }, some ⟨1, true⟩)] = .ok none := by
+  constructor <;> decide
 
 /-! ## non-vacuity: Figure 2a of Correa, Lee, Bareinboim 2022 (X=0, Y=1, W=2, Z=3) and the F8 witnesses -/
 
